@@ -11,13 +11,15 @@ CONSTANT Family
 OutFile == IOEnv.VERIF_OUT
 \* requirement indices (NpmModel!NR): 1 *   2 ^1.0.0   4 ^2.0.0   5 >=1.1.0   12 latest   16 <=1.1.0
 Rq(name, r, kind) == [name |-> name, r |-> r, kind |-> kind, alias |-> ""]
+Al(name, r, alias) == [name |-> name, r |-> r, kind |-> "reg", alias |-> alias]      \* npm:name@range installed as alias
 AOpts == {<<>>, <<Rq("pb", 2, "reg")>>, <<Rq("pb", 4, "reg")>>, <<Rq("pb", 1, "reg"), Rq("pc", 2, "reg")>>, <<Rq("pb", 5, "reg")>>}
-          \cup (IF Family = "full" THEN {<<Rq("pb", 2, "reg"), Rq("pb", 4, "opt")>>, <<Rq("pc", 4, "peer"), Rq("pb", 16, "reg")>>, <<Rq("pb", 12, "reg")>>} ELSE {})
+          \cup (IF Family = "full" THEN {<<Rq("pb", 2, "reg"), Rq("pb", 4, "opt")>>, <<Rq("pc", 4, "peer"), Rq("pb", 16, "reg")>>, <<Rq("pb", 12, "reg")>>,
+                                         <<Al("pb", 2, "pc")>>, <<Rq("pc", 2, "reg"), Al("pb", 2, "px")>>} ELSE {})
 BOpts == {<<>>, <<Rq("pc", 2, "reg")>>, <<Rq("pc", 4, "reg")>>, <<Rq("pa", 1, "reg")>>}
           \cup (IF Family = "full" THEN {<<Rq("pa", 4, "reg"), Rq("pc", 1, "dev")>>, <<Rq("pc", 1, "bundle")>>} ELSE {})
 COpts == {<<>>, <<Rq("pb", 2, "reg")>>, <<Rq("pb", 4, "reg")>>} \cup (IF Family = "full" THEN {<<Rq("pa", 2, "reg")>>} ELSE {})
 RootOpts == {<<Rq("pa", 1, "reg"), Rq("pb", 2, "reg")>>, <<Rq("pa", 2, "reg"), Rq("pc", 1, "reg")>>, <<Rq("pa", 4, "reg"), Rq("pb", 4, "reg"), Rq("pc", 2, "reg")>>,
-             <<Rq("pb", 1, "reg"), Rq("pc", 4, "reg")>>}
+             <<Rq("pb", 1, "reg"), Rq("pc", 4, "reg")>>} \cup (IF Family = "full" THEN {<<Rq("pa", 1, "reg"), Al("pc", 2, "pb")>>} ELSE {})
 UP(name, vs) == [name |-> name, versions |-> vs]
 UV(v, latest, depr, deps) == [v |-> v, latest |-> latest, dep |-> depr, deps |-> deps]
 Universes == {<< UP("pa", <<UV(4, FALSE, FALSE, a1), UV(9, FALSE, FALSE, a2)>>),
@@ -30,10 +32,10 @@ Universes == {<< UP("pa", <<UV(4, FALSE, FALSE, a1), UV(9, FALSE, FALSE, a2)>>),
 Init == \E u \in Universes : NRInit(u, [name |-> "root", v |-> 4])
 Next == NRNext
 TreeOut == [x \in 1..Len(tree) |-> [gid |-> tree[x].gid, pgid |-> IF tree[x].parent = 0 THEN 0 ELSE tree[tree[x].parent].gid]]
-Emit == (phase = "done") =>
+Emit == (phase \in {"done", "fatal"}) =>
           CSVWrite("%1$s", <<ToJson([universe |-> U, root |-> [name |-> "root", v |-> 4],
-                                      model |-> [nodes |-> gnodes, edges |-> gedges, tree |-> TreeOut]])>>, OutFile)
+                                      model |-> [fatal |-> (phase = "fatal"), nodes |-> gnodes, edges |-> gedges, tree |-> TreeOut]])>>, OutFile)
 \* liveness on the model: under weak fairness of the step relation every run stops (checked in the quick configuration)
 Spec == Init /\ [][Next]_nrvars /\ WF_nrvars(Next)
-EventuallyStops == <>(phase = "done")
+EventuallyStops == <>(phase \in {"done", "fatal"})
 =============================================================================
